@@ -4,6 +4,9 @@ CONSTANTS
   Thresholds <- Thr
   RawLen = 5
   Alphabet <- AlphaQ
-INVARIANTS RoundTrip OrderFree BuildRejectsInvalid BuildAcceptsValid ParseRejectsInvalid
+  AgainLists <- AgainL
+  AgainThr <- AgainT
+  MaxHeld = 2
+INVARIANTS HeldStable RoundTrip OrderFree BuildRejectsInvalid BuildAcceptsValid ParseRejectsInvalid
 ACTION_CONSTRAINT Edge
 CHECK_DEADLOCK FALSE
